@@ -23,12 +23,14 @@ WithIndex == {Sc("PX", "tag_delete", "ix", "", TRUE), Sc("PX", "man_delete", "",
 WithReferrers == {Sc("PR", "put_refd", "", "A2", FALSE), Sc("PR", "put_ref", "art2", "A2", TRUE), Sc("PR", "man_delete", "", "A1", FALSE),
                   Sc("PR", "man_delete", "", "A1", TRUE), Sc("PR", "tag_delete", "v1", "", TRUE), Sc("PR", "man_delete", "", "M1", FALSE),
                   Sc("PR2", "man_delete", "", "A1", FALSE), Sc("PR2", "man_delete", "", "A2", TRUE), Sc("PR2", "put_refd", "", "A1", FALSE)}
-WithLeftovers == {Sc("PT", "put_tag", "v3", "M3", TRUE), Sc("PT", "tag_delete", "v2", "", TRUE), Sc("PT", "copy", "v3", "M3", TRUE)}
+WithLeftovers == {Sc("PT", "put_tag", "v3", "M3", TRUE), Sc("PT", "tag_delete", "v2", "", TRUE), Sc("PT", "copy", "v3", "M3", TRUE),
+                  Sc("PT", "blob_delete", "", "L4", FALSE)}
+Retags == {Sc("P2", "retag", "v3", "M1", FALSE), Sc("P2", "retag", "v2", "M1", TRUE)}
 \* image copy with referrers: kept apart, its interrupted form is not repaired by a repetition (findings/C07-2.md)
 RefCopy == {Sc("E", "copy_ref", "v1", "M1", TRUE), Sc("P1", "copy_ref", "v1", "M1", TRUE)}
 RefCopyQ == {Sc("P1", "copy_ref", "v1", "M1", TRUE)}
-Main == FromEmpty \cup OneTag \cup TwoTags \cup WithIndex \cup WithReferrers \cup WithLeftovers
-Populated == OneTag \cup TwoTags \cup WithIndex \cup WithReferrers \cup WithLeftovers
+Main == FromEmpty \cup OneTag \cup TwoTags \cup WithIndex \cup WithReferrers \cup WithLeftovers \cup Retags
+Populated == OneTag \cup TwoTags \cup WithIndex \cup WithReferrers \cup WithLeftovers \cup Retags
 All == Main \cup RefCopy
 IxCopy == {Sc("E", "copy", "ix", "IX", TRUE), Sc("P1", "copy", "ix", "IX", TRUE)}
 \* quick tier: without the two scenarios that copy a two-image index from scratch with one goroutine per blob
